@@ -299,6 +299,56 @@ def _explicit_and_back(s, g, ref, mh, heavy, htot, expl_h, rec):
             raise Violation("implicit-molecule", f"{s}: graph_to_smi after h_to_implicit = {si!r}, molecule is {_canon(heavy)!r}")
 
 
+def _explicit_subset(s, g, case, htot, expl_h, rec):
+    """h_to_explicit on a generated subset of the atoms (the documented `nodes` argument): only the listed atoms are
+    expanded, nothing else changes, total H and the molecule stay the same, and h_to_implicit restores the graph."""
+    from synkit.Graph.Hyrogen._misc import h_to_explicit, h_to_implicit
+    from synkit.IO.chem_converter import graph_to_smi
+
+    keys = case.get("maps") or case.get("perm") or [0, 1, 1, 0, 2]
+    heavy_nodes = [n for n, d in g.nodes(data=True) if d.get("element") != "H"]
+    subset = [n for i, n in enumerate(heavy_nodes) if keys[i % len(keys)] % 2 == 0]
+    if not subset or len(subset) == len(heavy_nodes):
+        subset = heavy_nodes[:1] if len(heavy_nodes) > 1 else []
+    if not subset:
+        return
+    g0 = copy.deepcopy(g)
+    ge = h_to_explicit(g, list(subset))
+    if _exact_equal(g, g0) is not None:
+        raise Violation("input-mutated", f"{s}: h_to_explicit(nodes={subset}) changed its input")
+    new = [n for n in ge.nodes if n not in g]
+    if set(g.nodes) - set(ge.nodes):
+        raise Violation("explicit-subset", f"{s}: h_to_explicit(nodes={subset}) lost atoms {sorted(set(g.nodes) - set(ge.nodes))}")
+    for n in g.nodes:
+        a, b = g.nodes[n], ge.nodes[n]
+        if any(a.get(k) != b.get(k) for k in ("element", "charge", "aromatic")):
+            raise Violation("explicit-subset", f"{s}: h_to_explicit(nodes={subset}) changed atom {n}: {dict(a)} -> {dict(b)}")
+        nh = sum(1 for x in ge[n] if x in new)
+        if n in subset:
+            if b.get("hcount", 0) != 0 or nh != a.get("hcount", 0):
+                raise Violation("explicit-subset", f"{s}: atom {n} in nodes={subset}: hcount {a.get('hcount', 0)} -> {b.get('hcount', 0)} with {nh} new H")
+        elif b.get("hcount", 0) != a.get("hcount", 0) or nh:
+            raise Violation("explicit-subset", f"{s}: atom {n} NOT in nodes={subset} was touched: hcount {a.get('hcount', 0)} -> {b.get('hcount', 0)}, {nh} new H")
+    for h in new:
+        if ge.nodes[h].get("element") != "H" or ge.degree[h] != 1:
+            raise Violation("explicit-subset", f"{s}: new node {h} is {dict(ge.nodes[h])} with degree {ge.degree[h]}")
+    for u, v, d in g.edges(data=True):
+        if not ge.has_edge(u, v) or ge[u][v].get("order") != d.get("order"):
+            raise Violation("explicit-subset", f"{s}: bond {u}-{v} changed by h_to_explicit(nodes={subset})")
+    if _h_total_graph(ge) != htot:
+        raise Violation("h-total", f"{s}: {htot} hydrogens, {_h_total_graph(ge)} after h_to_explicit(nodes={subset})")
+    se = graph_to_smi(ge)
+    me = chem_gen.parse(se) if se else None
+    if me is None or chem_gen.side_key(se) != chem_gen.side_key(s):
+        raise Violation("explicit-subset", f"{s}: molecule after h_to_explicit(nodes={subset}) is {se!r}")
+    if not expl_h:
+        back = h_to_implicit(ge)
+        if _exact_equal(back, g0) is not None:
+            raise Violation("implicit-roundtrip", f"{s}: h_to_implicit(h_to_explicit(g, nodes={subset})) != g: {_exact_equal(back, g0)}")
+    if rec is not None:
+        rec.label("explicit-subset-checked")
+
+
 def body_hyd(case, rec):
     from synkit.Graph.Hyrogen._misc import h_to_explicit, h_to_implicit, implicit_hydrogen
     from synkit.IO.chem_converter import graph_to_smi, smiles_to_graph
@@ -313,6 +363,7 @@ def body_hyd(case, rec):
     if g is None:
         raise Violation("smiles_to_graph-none", f"{s}: no graph for a sanitisable molecule")
     _explicit_and_back(s, g, _ref_graph(m), mh, heavy, htot, expl_h, rec)
+    _explicit_subset(s, g, case, htot, expl_h, rec)
     if case.get("maps"):
         # the same on a graph whose ids are sparse, unordered atom-map numbers (as in reaction graphs)
         mm = Chem.Mol(m)
